@@ -2,7 +2,7 @@ SPECIFICATION Spec
 CONSTANTS
   RightNakUsesDx1 = FALSE
   MaxN = 4
-  Spacings = {1, 2}
-  DerivValues = {0, 1, 2}
+  Spacings = {1, 3}
+  DerivValues = {0, 2}
 INVARIANTS SlopesAgree ValuesAgree
 CHECK_DEADLOCK FALSE
